@@ -4,9 +4,10 @@
    gen_* are regenerated from core/flow.py on every run (Gen/FlowAlg.v).  Fields are lists of channels of nested lists in
    tensor order; affine maps are homogeneous D x (D+1) matrices H2 / H3; a generator G = [H | h] has the velocity field
    v(x) = H x + h (vel_field) in normalised coordinates of the given align_corners convention. *)
-From Coq Require Import ZArith QArith Qabs Qcanon List Lia.
+From Coq Require Import ZArith QArith Qabs Qcanon List Lia Reals.
+From Coquelicot Require Import Coquelicot.
 From DV Require Import Base.Field Base.FieldFacts Base.LinAlg Base.QcInst Model.Sampler Model.SamplerQc Model.Flow Model.FlowHull Model.FlowQc
-  Gen.FlowAlg Proofs.C11Interp Proofs.C11Compose Proofs.C11Compose3 Proofs.C11Expv Proofs.C11Hull Proofs.C11Gen.
+  Gen.FlowAlg Proofs.C11Interp Proofs.C11Compose Proofs.C11Compose3 Proofs.C11Expv Proofs.C11Hull Proofs.C11Gen Base.RInst Proofs.C11Limit Proofs.C11LimitModel.
 Import ListNotations.
 
 Section Statements.
@@ -142,11 +143,34 @@ Print Assumptions C11_expv_closed_form_hull_invariant_3d.
 Print Assumptions C11_diag_dominant_2d.
 Print Assumptions C11_diag_dominant_3d.
 
-(* C11_convergence_partial (NOT proved): (I + H/2^k)^(2^k) -> exp(H) as k -> infinity is a statement about the closed
-   form (real analysis of the matrix exponential), not about the code; it is explored numerically on the
-   implementation by tools/props/c11.py:search (error against torch.linalg.matrix_exp must decrease with k).
-   Also not proved: exp(v) o exp(-v) = id up to second-order interpolation error for smooth non-affine fields
-   (numeric exploration only). *)
+(* 7. convergence to the exponential as k grows (reals; stdlib real-number axioms): the scalar closed form
+      (1 + h/2^k)^(2^k) tends to exp h, hence for every DIAGONAL generator (per-axis scaling velocity field, no translation) the
+      closed form (I + diag(h)/2^k)^(2^k) of the theorems above tends entrywise to exp(diag(h)).
+      PARTIAL: generators with off-diagonal entries / translation (the matrix exponential proper) are not proved; they are
+      explored numerically on the implementation (tools/props/c11.py:search, error against torch.linalg.matrix_exp must
+      decrease like |G|^2 e^|G| / 2^k).  Also not proved: exp(v) o exp(-v) = id up to second-order interpolation error for
+      smooth non-affine fields (numeric exploration only). *)
+Local Open Scope R_scope.
+Theorem C11_convergence_scalar :
+  forall h : R, is_lim_seq (fun k : nat => (1 + h / 2 ^ k) ^ (2 ^ k)) (exp h).
+Proof. exact scalar_scaling_and_squaring_converges. Qed.
+Theorem C11_convergence_diagonal_partial :
+  forall hx hy hz : R,
+  (let A := fun k : nat => hpow (K:=RF) 2 (hone_plus (K:=RF) 2 (/ 2 ^ k) (H2 (K:=RF) hx 0 0 0 hy 0)) (2 ^ k) in
+   is_lim_seq (fun k => hentry (A k) 0 0) (exp hx) /\ is_lim_seq (fun k => hentry (A k) 1 1) (exp hy)) /\
+  (let A := fun k : nat => hpow (K:=RF) 3 (H3 (K:=RF) (1 + hx / 2 ^ k) 0 0 0 0 (1 + hy / 2 ^ k) 0 0 0 0 (1 + hz / 2 ^ k) 0) (2 ^ k) in
+   is_lim_seq (fun k => hentry (A k) 0 0) (exp hx) /\ is_lim_seq (fun k => hentry (A k) 1 1) (exp hy) /\
+   is_lim_seq (fun k => hentry (A k) 2 2) (exp hz)).
+Proof.
+  intros hx hy hz. split.
+  - intro A. destruct (closed_form_converges_diag2 hx hy) as [L0 [L1 _]]. split.
+    + eapply is_lim_seq_ext; [|exact L0]. intro k. unfold A. rewrite hone_plus_diag2. unfold Rdiv. now rewrite !(Rmult_comm (/ 2 ^ k)).
+    + eapply is_lim_seq_ext; [|exact L1]. intro k. unfold A. rewrite hone_plus_diag2. unfold Rdiv. now rewrite !(Rmult_comm (/ 2 ^ k)).
+  - exact (closed_form_converges_diag3 hx hy hz).
+Qed.
+Print Assumptions C11_convergence_scalar.
+Print Assumptions C11_convergence_diagonal_partial.
+Local Open Scope Q_scope.
 
 (* non-vacuity: a concrete generator on a 3 x 2 lattice (align_corners = false) that satisfies the hull predicate, is
    not trivial, and on which the executable model agrees with the closed form (computed, not by the theorem) *)
